@@ -11,6 +11,7 @@ import Mkdb.Driver.Lock
 import Mkdb.Driver.Wal
 import Mkdb.Driver.BSearch
 import Mkdb.Driver.ScanBuf
+import Mkdb.Driver.Header
 open Mkdb.Driver
 
 def main (args : List String) : IO UInt32 := do
@@ -43,4 +44,6 @@ def main (args : List String) : IO UInt32 := do
   | ["judge", "bsearch"] => judgeLoop stdin stdout ({} : BSearch.J) BSearch.judgeLine; return 0
   | ["model", "scanbuf"] => modelLoop stdin stdout () ScanBuf.stepLine; return 0
   | ["judge", "scanbuf"] => judgeLoop stdin stdout ({} : ScanBuf.J) ScanBuf.judgeLine; return 0
+  | ["model", "header"] => modelLoop stdin stdout () Header.stepLine; return 0
+  | ["judge", "header"] => judgeLoop stdin stdout ({} : Header.J) Header.judgeLine; return 0
   | _ => IO.eprintln "usage: mkdbdrv model|judge <proto>"; return 2
